@@ -23,7 +23,7 @@ import (
 )
 
 func TestMain(m *testing.M) {
-	vlib.Rule("C26: one S3 request per case against a real `weed s3 -config` child process (identities admin / reader / writer-on-b1 / lister / tagger-on-b1 / admin-of-b2 / wildcard writer / anonymous Read:pubb) over route (all 23 registered routes) x auth style {V4 header, V4 presigned, V2 header, V2 presigned, V4 streaming, POST policy V4/V2, anonymous, type confusion} x variant {valid, wrong secret, unknown key, swapped access key, tampered path/query/header/method/date/sub-resource, expired, bad chunk signature, Bearer/Basic/garbage Authorization, streaming or form-data marker without signature} x identity x bucket {b1,b2,pubb,b1x,pubb2} (b1x / pubb2 extend the name of a bucket some identity is limited to); fixtures (objects with tags, open multipart uploads) are made through the filer directly. Oracle: a request that is not (valid signature of an identity permitted for the route's action on the bucket, or anonymous and permitted) gets an auth-class error, leaves the filer snapshot unchanged and returns no protected bytes. Non-trivial = not-allowed request on a mutating route. IAM half (in-process): random policy documents -> GetActions -> canDo; non-trivial = policy with >= 2 statements.")
+	vlib.Rule("C26: one S3 request per case against a real `weed s3 -config` child process (identities admin / reader / writer-on-b1 / lister / tagger-on-b1 / admin-of-b2 / wildcard writer / anonymous Read:pubb) over route (all 23 registered routes) x auth style {V4 header, V4 presigned, V2 header, V2 presigned, V4 streaming, POST policy V4/V2, anonymous, type confusion} x variant {valid, wrong secret, unknown key, swapped access key, tampered path/query/header/method/date/sub-resource, expired, bad chunk signature, Bearer/Basic/garbage Authorization, streaming or form-data marker without signature, POST forms with a bucket field of their own naming the posted-to bucket (valid) or another bucket the signer may write to (policy for another bucket: must be refused)} x identity x bucket {b1,b2,pubb,b1x,pubb2} (b1x / pubb2 extend the name of a bucket some identity is limited to); fixtures (objects with tags, open multipart uploads) are made through the filer directly. Oracle: a request that is not (valid signature of an identity permitted for the route's action on the bucket, or anonymous and permitted) gets an auth-class error, leaves the filer snapshot unchanged and returns no protected bytes. Non-trivial = not-allowed request on a mutating route. IAM half (in-process): random policy documents -> GetActions -> canDo; non-trivial = policy with >= 2 statements.")
 	vlib.Assume("the harness signers implement the AWS specifications (cross-checked against aws-sdk-go's v4 signer; every (route, style) valid request by a permitted identity must be accepted or the run is inconclusive); the action a route needs is the one the router registers; 'permits' follows the documented identity action syntax Action | Action:bucket | trailing *; Admin implies every action")
 	vlib.Main(m)
 }
@@ -335,7 +335,9 @@ var (
 	v2hVariants  = []string{"valid", "wrongsecret", "unknownkey", "swapkey", "tamper-path", "tamper-date", "tamper-method", "tamper-subresource", "tamper-amzheader"}
 	v2pVariants  = []string{"valid", "wrongsecret", "unknownkey", "swapkey", "expired", "tamper-path", "tamper-expires", "tamper-method"}
 	strmVariants = []string{"valid", "wrongsecret", "unknownkey", "noauth", "badchunk", "tamper-path"}
-	postVariants = []string{"valid-v4", "valid-v2", "wrongsecret-v4", "wrongsecret-v2", "unknownkey-v4", "unknownkey-v2", "expired-policy", "other-bucket", "other-key", "tampered-policy", "nosig"}
+	// *-bf: the form carries a bucket field of its own; bucket-field-*: policy and form
+	// field name another bucket (one the signer may write to) than the one posted to
+	postVariants = []string{"valid-v4-bf", "valid-v2-bf", "bucket-field-lower", "bucket-field-upper", "bucket-field-v2", "valid-v4", "valid-v2", "wrongsecret-v4", "wrongsecret-v2", "unknownkey-v4", "unknownkey-v2", "expired-policy", "other-bucket", "other-key", "tampered-policy", "nosig"}
 	confVariants = []string{"bearer", "basic", "emptyauth", "v4-garbage", "v4-nosig", "v2-garbage", "v2-nocolon", "presign-v4-partial", "presign-v2-partial", "streaming+formdata", "lowercase-aws4"}
 )
 
@@ -410,6 +412,16 @@ func swapMethod(m string) string {
 	default:
 		return "PUT"
 	}
+}
+
+// writableElsewhere names a bucket other than cur that id may write to (else just another bucket).
+func writableElsewhere(id ident, cur string) string {
+	for _, b := range buckets {
+		if b != cur && permits(id.Actions, "Write", b) {
+			return b
+		}
+	}
+	return otherBucket(cur)
 }
 
 // apply signs base in the given style / variant with identity id.
@@ -567,9 +579,11 @@ func apply(rt route, base *s3kit.Req, altPath string, c sv, id ident, fx *fixtur
 				polBucket = otherBucket(fx.bucket)
 			case "other-key":
 				polKey = "/" + fx.key("elsewhere")
+			case "bucket-field-lower", "bucket-field-upper", "bucket-field-v2":
+				polBucket = writableElsewhere(id, fx.bucket)
 			}
 			var f *s3kit.PostForm
-			if strings.HasSuffix(c.variant, "-v2") {
+			if strings.Contains(c.variant, "-v2") {
 				f = s3kit.PostPolicyV2(signWith, polBucket, polKey, expiration, data)
 			} else {
 				f = s3kit.PostPolicyV4(signWith, now, region, polBucket, polKey, expiration, data)
@@ -578,6 +592,16 @@ func apply(rt route, base *s3kit.Req, altPath string, c sv, id ident, fx *fixtur
 			switch c.variant {
 			case "valid-v4", "valid-v2":
 				out.signer, out.policyOK = &id, true
+			case "valid-v4-bf":
+				f.Set("bucket", fx.bucket)
+				out.signer, out.policyOK = &id, true
+			case "valid-v2-bf":
+				f.Set("Bucket", fx.bucket)
+				out.signer, out.policyOK = &id, true
+			case "bucket-field-lower", "bucket-field-v2":
+				f.Set("bucket", polBucket)
+			case "bucket-field-upper":
+				f.Set("Bucket", polBucket)
 			case "tampered-policy":
 				// same policy with a later expiration, old signature
 				g := s3kit.PostPolicyV4(signWith, now, region, polBucket, polKey, expiration.Add(time.Hour), data)
@@ -896,7 +920,7 @@ func TestPropAuthRandom(t *testing.T) {
 		}
 		c := cs[rapid.IntRange(0, len(cs)-1).Draw(t, "combo")]
 		id := idents[0]
-		if isValidVariant(c.variant) || rapid.IntRange(0, 3).Draw(t, "anyIdent") == 0 {
+		if isValidVariant(c.variant) || strings.HasPrefix(c.variant, "bucket-field") || rapid.IntRange(0, 3).Draw(t, "anyIdent") == 0 {
 			id = idents[rapid.IntRange(0, len(idents)-1).Draw(t, "ident")]
 		}
 		bucket := rapid.SampledFrom(buckets).Draw(t, "bucket")
@@ -944,6 +968,10 @@ func TestPropAuthMatrixExhaustive(t *testing.T) {
 				}
 				if c.style == "conf" || c.style == "post" {
 					runs = append(runs, ib{idents[0], "pubb"}) // where the anonymous identity may read
+				}
+				if strings.HasPrefix(c.variant, "bucket-field") {
+					// writer1 (Write:b1), b2admin (Admin:b2), wild (Write:pu*) posting to a bucket they may not write
+					runs = append(runs, ib{idents[2], "b2"}, ib{idents[2], "b1x"}, ib{idents[5], "b1"}, ib{idents[6], "b1"}, ib{idents[2], "b1"})
 				}
 			}
 			for _, r := range runs {
